@@ -395,18 +395,19 @@ var unrelated = []string{
 // calls
 
 type call struct {
-	n       int
-	op      string
-	addr    string
-	ctxN    int
-	cancel  context.CancelFunc
-	done    chan struct{}
-	err     error
-	ch      *muc.Channel // the channel the call ran on / returned
-	gid     string       // goroutine running the call
-	reqID   string       // id given to the call's presence: identifies its request at the room
-	opts    *joinOpts
-	checked bool
+	n        int
+	op       string
+	addr     string
+	ctxN     int
+	cancel   context.CancelFunc
+	done     chan struct{}
+	err      error
+	ch       *muc.Channel // the channel the call ran on / returned
+	gid      string       // goroutine running the call
+	reqID    string       // id given to the call's presence: identifies its request at the room
+	opts     *joinOpts
+	checked  bool
+	answered bool // the room has sent the self-presence for this call's request
 }
 
 func classifyErr(err error) (class, cond string) {
